@@ -51,3 +51,40 @@ def _bytes_strip_lemmas(it, s, *a):
     it.ex.assume(z3.Implies(is_ws_free_ends(init), f(init) == init))
     it.ex.note("lib", "bytes.strip (uninterpreted + instantiated lemmas: ASCII whitespace SP HT LF CR VT FF)")
     return SBytes(r)
+
+
+# ---------------------------------------------------------------------------------------------------------------
+# idna codec: uninterpreted (lib.py) plus two true facts about CPython's encodings.idna fast paths, enabled by the scenario
+# option `idna_facts=True`:
+#   (E) str.encode("idna") of a pure-ASCII string, when it succeeds, returns the same characters (only label lengths are checked);
+#   (D) bytes.decode("idna") of pure-ASCII bytes that do not contain b"xn--" succeeds and returns the same characters.
+_ASCII = z3.Star(z3.Range(chr(0), chr(127)))
+_default_str_encode = METHODS[(SStr, "encode")]
+_default_bytes_decode = METHODS[(SBytes, "decode")]
+
+
+def _codec_name(a, k, key="encoding"):
+    v = a[0] if a else k.get(key)
+    c = v.concrete() if v is not None else None
+    return (c or "utf-8").lower().replace("_", "-")
+
+
+@method(SStr, "encode")
+def _str_encode_idna(it, s, *a, **k):
+    r = _default_str_encode(it, s, *a, **k)
+    if getattr(it.ex, "idna_facts", False) and _codec_name(a, k) == "idna" and s.concrete() is None:
+        it.ex.assume(z3.Implies(z3.InRe(s.t, _ASCII), r.t == s.t))  # on this path the encoding succeeded
+        it.ex.note("assumed", "idna: encoding a pure-ASCII name returns it unchanged (CPython fast path)")
+    return r
+
+
+@method(SBytes, "decode")
+def _bytes_decode_idna(it, s, *a, **k):
+    if getattr(it.ex, "idna_facts", False) and _codec_name(a, k) == "idna" and s.concrete() is None:
+        plain = z3.And(z3.InRe(s.t, _ASCII), z3.Not(z3.Contains(s.t, z3.StringVal("xn--"))))
+        it.ex.assume(z3.Implies(plain, uf("decodable_idna", _S, z3.BoolSort())(s.t)))
+        r = _default_bytes_decode(it, s, *a, **k)
+        it.ex.assume(z3.Implies(plain, r.t == s.t))
+        it.ex.note("assumed", "idna: decoding pure-ASCII bytes without 'xn--' returns them unchanged (CPython fast path)")
+        return r
+    return _default_bytes_decode(it, s, *a, **k)
